@@ -23,7 +23,10 @@ Verdict(ev) ==
       [] ev.ev = "cleanup" ->
             /\ CleanupOK(ev.G, ev.R)
             /\ CleanupIdempotent(ev.R, ev.R2)
-      [] ev.ev = "check" -> CheckOK(ev.G, AsSet3(ev.reports), AsSet3(ev.thisOk))
+      [] ev.ev = "check" ->
+            /\ Chk("NoPanic", ev.panic = FALSE)
+            /\ Chk("Pure", ev.pure = TRUE)
+            /\ CheckOK(ev.G, Range(ev.reports), AsSet3(ev.comps), {<<ev.this[i][1], ev.this[i][2]>> : i \in 1..Len(ev.this)})
       [] OTHER -> Print(<<"FAILED", "unknown event">>, FALSE)
 
 TraceInit == l = 1
